@@ -16,6 +16,12 @@
  *        6 ZSTD_createCDict  7 ZSTD_createCDict_byReference  8 ZSTD_CCtxParams_init + ZSTD_getCParamsFromCCtxParams  9 ZSTD_initCStream + first flush
  *        10 ZSTD_CCtx_setParameter(compressionLevel) + ZSTD_compress2
  *        -> "ok cp=<wlog,clog,hlog,slog,mml,tlen,strat> chk=<ZSTD_checkCParams refuses> [acc=<struct setter verdict>] |"
+ *   seqframe <n> <cap>   (kind c/s) a WHOLE frame of n (<= 1000) bytes through ZSTD_compressSequences (one block of literals, in the sequence format in
+ *                        force); cap = 1: a destination of 1 byte (the call fails after it began the frame: the context stays mid-frame, like ZSTD_compress2)
+ *   sstart <n>           (kind c/s) n more bytes offered with ZSTD_e_continue; with ZSTD_c_stableInBuffer in force when the frame was opened this is the
+ *                        DEFERRED start (input reported consumed, compression not begun); the harness honours the stable-input contract for the whole
+ *                        frame (same buffer, only grown; start / end / frame continue it)
+ *   pledge | prefix | cdict   (kind c/s) ZSTD_CCtx_setPledgedSrcSize(unknown) / ZSTD_CCtx_refPrefix(raw content) / ZSTD_CCtx_refCDict(NULL): init stage only
  * after every op one line:  <status> | v0 v1 v2 ...   (read-back of ALL parameters, '?' when get fails) */
 #include <stdio.h>
 #include <stdlib.h>
@@ -86,7 +92,19 @@ static void derive(const char* line) {
     if (entry <= 1) { strcat(st, " acc="); strcat(st, cls(acc)); }
     printf("%s |\n", st);
 }
-static unsigned char src[1 << 16], dst[1 << 17], dictbuf[4096];
+static unsigned char src[1 << 18], dst[(1 << 18) + (1 << 12)], dictbuf[4096];
+
+/* the caller's side of a streaming compression frame: whether a frame is open (input offered, frame neither completed nor dropped by a session
+ * reset), and - decided when the frame is opened, from the parameter read back - whether it is a stable-input frame: then every call of the frame
+ * passes the SAME ZSTD_inBuffer, its size only growing and its pos only moved by the library (zstd.h, ZSTD_c_stableInBuffer) */
+static int cs_open, cs_stable, cs_clamped; static ZSTD_inBuffer sin;
+static ZSTD_inBuffer* cin(size_t n) {
+    static ZSTD_inBuffer tmp;
+    if (!cs_open) { int v = 0; ZSTD_CCtx_getParameter(cctx, ZSTD_c_stableInBuffer, &v); cs_stable = (v == 1); sin.src = src; sin.size = sin.pos = 0; cs_open = 1; }
+    if (cs_stable) { if (sin.size + n > sizeof src) { n = sizeof src - sin.size; cs_clamped = 1; } sin.size += n; return &sin; }
+    if (n > sizeof src) { n = sizeof src; cs_clamped = 1; }
+    tmp.src = src; tmp.size = n; tmp.pos = 0; return &tmp;
+}
 
 static void dump(const char* status) {
     size_t i; printf("%s |", status);
@@ -125,7 +143,7 @@ int main(void) {
             dctx = dstatic ? ZSTD_initStaticDCtx(sbufD, SBUF_D) : ZSTD_createDCtx();
             cpar = ZSTD_createCCtxParams();
             if (!cctx || !dctx) { printf("err:null |\n"); fflush(stdout); return 3; }
-            dstarted = 0;
+            dstarted = 0; cs_open = 0; cs_clamped = 0;
             dump("ok");
         } else if (!strcmp(a, "set")) {
             size_t r = kind == 'c' ? ZSTD_CCtx_setParameter(cctx, (ZSTD_cParameter)x, (int)y)
@@ -158,8 +176,8 @@ int main(void) {
             dump(cls(ZSTD_isError(r) ? r : 0));
         } else if (!strcmp(a, "start")) {
             size_t r;
-            if (kind == 'c') { ZSTD_inBuffer in = { src, 100, 0 }; ZSTD_outBuffer out = { dst, sizeof dst, 0 };
-                r = ZSTD_compressStream2(cctx, &out, &in, ZSTD_e_flush); }
+            if (kind == 'c') { ZSTD_inBuffer* in = cin(100); ZSTD_outBuffer out = { dst, sizeof dst, 0 };
+                r = ZSTD_compressStream2(cctx, &out, in, ZSTD_e_flush); }
             else if (kind == 'd' && dstarted) r = 0;   /* already inside a frame header: feeding the magic again would be a corrupt stream */
             else if (kind == 'd') { static const unsigned char hd[2] = { 0x28, 0xB5 }; ZSTD_inBuffer in = { hd, 2, 0 }; ZSTD_outBuffer out = { dst, sizeof dst, 0 };
                 int fmt = 0; ZSTD_DCtx_getParameter(dctx, ZSTD_d_format, &fmt);
@@ -169,8 +187,9 @@ int main(void) {
             dump(cls(r));
         } else if (!strcmp(a, "end")) {
             size_t r = 0;
-            if (kind == 'c') { ZSTD_inBuffer in = { src, 0, 0 }; ZSTD_outBuffer out = { dst, sizeof dst, 0 };
-                do { r = ZSTD_compressStream2(cctx, &out, &in, ZSTD_e_end); } while (!ZSTD_isError(r) && r != 0); }
+            if (kind == 'c') { ZSTD_inBuffer* in = cin(0); ZSTD_outBuffer out = { dst, sizeof dst, 0 };
+                do { r = ZSTD_compressStream2(cctx, &out, in, ZSTD_e_end); } while (!ZSTD_isError(r) && r != 0);
+                if (r == 0) cs_open = 0; }
             else if (kind == 'd') { r = ZSTD_DCtx_reset(dctx, ZSTD_reset_session_only); dstarted = 0; }
             dump(cls(r));
         } else if (!strcmp(a, "reset")) {
@@ -178,25 +197,28 @@ int main(void) {
                      : kind == 'd' ? ZSTD_DCtx_reset(dctx, (ZSTD_ResetDirective)x)
                                    : ZSTD_CCtxParams_reset(cpar);
             if (kind == 'd' && x != 2 && !ZSTD_isError(r)) dstarted = 0;
+            if (kind == 'c' && x != 2 && !ZSTD_isError(r)) cs_open = 0;
             dump(cls(r));
         } else if (!strcmp(a, "dict")) {
             size_t r = kind == 'c' ? ZSTD_CCtx_loadDictionary(cctx, dictbuf, sizeof dictbuf)
                      : kind == 'd' ? ZSTD_DCtx_loadDictionary(dctx, dictbuf, sizeof dictbuf) : 0;
             dump(cls(r));
         } else if (!strcmp(a, "frame") && kind == 'c') {
-            ZSTD_inBuffer in = { src, (size_t)x, 0 }; ZSTD_outBuffer out = { dst, sizeof dst, 0 }; size_t r; char hf[128]; int fmt = 0;
-            do { r = ZSTD_compressStream2(cctx, &out, &in, ZSTD_e_end); } while (!ZSTD_isError(r) && r != 0);
+            ZSTD_inBuffer* in = cin((size_t)x); ZSTD_outBuffer out = { dst, sizeof dst, 0 }; size_t r; char hf[128]; int fmt = 0;
+            do { r = ZSTD_compressStream2(cctx, &out, in, ZSTD_e_end); } while (!ZSTD_isError(r) && r != 0);
+            if (r == 0) cs_open = 0;
             ZSTD_CCtx_getParameter(cctx, ZSTD_c_format, &fmt);
             if (ZSTD_isError(r)) dump(cls(r)); else { char st[200]; header_facts(dst, out.pos, fmt, hf); sprintf(st, "ok %s", hf); dump(st); }
         } else if (!strcmp(a, "simple") && kind == 'c') {
             size_t r = ZSTD_compressCCtx(cctx, dst, sizeof dst, src, (size_t)x, (int)y); char hf[128];
             /* the simple API leaves its source size behind as a pledge for a following streaming frame (finding recorded under C15);
              * C16 is about parameters, so drop that session state here */
-            ZSTD_CCtx_reset(cctx, ZSTD_reset_session_only);
+            ZSTD_CCtx_reset(cctx, ZSTD_reset_session_only); cs_open = 0;
             if (ZSTD_isError(r)) dump(cls(r)); else { char st[200]; header_facts(dst, r, 0, hf); sprintf(st, "ok %s", hf); dump(st); }
         } else if (!strcmp(a, "applied") && kind == 'c') {
             /* ZSTD_compress2 of x bytes with the parameters in force: which compression parameters were applied */
             size_t r = (size_t)x > sizeof src ? (size_t)-ZSTD_error_srcSize_wrong : ZSTD_compress2(cctx, dst, sizeof dst, src, (size_t)x);
+            cs_open = 0;   /* ZSTD_compress2 starts with a session reset */
             if (ZSTD_isError(r)) dump(cls(r)); else { char st[200]; cpstr(st, "ok ap=", cctx->appliedParams.cParams); dump(st); }
         } else if (!strcmp(a, "pset") && kind == 'c') {
             /* set a parameter of the separate ZSTD_CCtx_params object (the context itself is dumped: it must not move) */
@@ -208,7 +230,28 @@ int main(void) {
         } else if (!strcmp(a, "c2") && kind == 'c') {
             /* ZSTD_compress2 into a destination of x bytes (x = 1: guaranteed too small) */
             size_t r = ZSTD_compress2(cctx, dst, (size_t)x, src, 3000);
+            cs_open = 0;
             dump(ZSTD_isError(r) ? "err:other" : "ok");
+        } else if (!strcmp(a, "sstart") && kind == 'c') {
+            ZSTD_inBuffer* in = cin((size_t)x); ZSTD_outBuffer out = { dst, sizeof dst, 0 }; size_t r = 0;
+            /* ZSTD_e_continue promises "some" progress only: call until the offered bytes are taken */
+            do { r = ZSTD_compressStream2(cctx, &out, in, ZSTD_e_continue); } while (!ZSTD_isError(r) && in->pos < in->size && out.pos < out.size);
+            if (!ZSTD_isError(r) && in->pos != in->size) r = (size_t)-ZSTD_error_GENERIC;
+            dump(cs_clamped ? "bad-op" : cls(r));
+        } else if (!strcmp(a, "seqframe") && kind == 'c') {
+            ZSTD_Sequence sq[1]; int delim = 0, fmt = 0; size_t nb = x > 1000 ? 1000 : (size_t)x, r; char hf[128];
+            memset(sq, 0, sizeof sq); sq[0].litLength = (unsigned)nb;      /* explicit delimiters: the block's last literals */
+            ZSTD_CCtx_getParameter(cctx, ZSTD_c_blockDelimiters, &delim);
+            r = ZSTD_compressSequences(cctx, dst, y ? 1 : sizeof dst, sq, delim == (int)ZSTD_sf_explicitBlockDelimiters ? 1 : 0, src, nb);
+            cs_open = 0;
+            ZSTD_CCtx_getParameter(cctx, ZSTD_c_format, &fmt);
+            if (ZSTD_isError(r)) dump(y ? "err:other" : cls(r)); else { char st[200]; header_facts(dst, r, fmt, hf); sprintf(st, "ok %s", hf); dump(st); }
+        } else if (!strcmp(a, "pledge") && kind == 'c') {
+            dump(cls(ZSTD_CCtx_setPledgedSrcSize(cctx, ZSTD_CONTENTSIZE_UNKNOWN)));
+        } else if (!strcmp(a, "prefix") && kind == 'c') {
+            dump(cls(ZSTD_CCtx_refPrefix(cctx, dictbuf, 512)));
+        } else if (!strcmp(a, "cdict") && kind == 'c') {
+            dump(cls(ZSTD_CCtx_refCDict(cctx, NULL)));
         } else dump("bad-op");
         fflush(stdout);
     }
